@@ -5,6 +5,7 @@ import (
 	"math"
 	"math/rand"
 	"sort"
+	"strings"
 
 	"github.com/kwertop/gostatix"
 )
@@ -104,7 +105,7 @@ func suiteCuckoo(c *Ctx) {
 		cfg := cuckooCfg{
 			n:       ns[c.rng.Intn(len(ns))],
 			b:       []uint64{1, 2, 4, 8}[c.rng.Intn(4)],
-			fpl:     []uint64{1, 2, 3, 4, 8}[c.rng.Intn(5)],
+			fpl:     []uint64{1, 2, 3, 4, 8, 1, 2, 3, 17, 19, 20}[c.rng.Intn(11)],
 			retries: []uint64{1, 2, 3, 10, 50, 500}[c.rng.Intn(6)],
 			redis:   redis,
 		}
@@ -121,6 +122,61 @@ func suiteCuckoo(c *Ctx) {
 		cuckooCase(c, cfg)
 	}
 	cuckooInvalidFpProbe(c)
+	cuckooHugeBucket(c)
+}
+
+// cuckooHugeBucket: a bucket with more slots than a 16-bit index can address (a compact undo log,
+// a narrowed slot type).  One completely full in-memory filter of 1 bucket x 70 000 slots is loaded
+// through Import (filling it with Insert would be quadratic); a non-destructive Insert into it
+// must fail and leave every slot as it was (C14), all stored elements still present (C02).
+func cuckooHugeBucket(c *Ctx) {
+	const slots = 70000
+	elems := make([]string, slots)
+	for i := range elems {
+		elems[i] = fmt.Sprintf("%06d", 100000+i)
+	}
+	doc := []byte(fmt.Sprintf(`{"s":1,"bs":%d,"fpl":6,"l":%d,"r":40,"b":[{"s":%d,"l":%d,"e":["%s"],"k":""}],"k":"","mk":""}`,
+		slots, slots, slots, slots, strings.Join(elems, `","`)))
+	f := gostatix.NewCuckooFilterWithRetries(1, 2, 6, 40)
+	if err := f.Import(doc); err != nil || f.Length() != slots {
+		return
+	}
+	c.rep.Cases++
+	before, err := f.Export()
+	if err != nil {
+		return
+	}
+	cfg := fmt.Sprintf("cuckoo(n=1,b=%d,fpl=6,retries=40,redis=false), completely full", slots)
+	for try := 0; try < 3; try++ {
+		e := []byte(fmt.Sprintf("one-too-many-%d-%d", c.seed, try))
+		if _, _, _, ok := cuckooPos(e, 1, 6); !ok {
+			continue
+		}
+		rand.Seed(c.rng.Int63())
+		ok := false
+		res := safely(func() { ok = f.Insert(e, false) })
+		c.op("Insert.huge-bucket")
+		if !res.panicked && ok {
+			c.fail([]string{"C14", "C13"}, "cuckoo-insert-into-full-succeeds", cfg+": Insert into a completely full filter reported success", cfg)
+			return
+		}
+		after, _ := f.Export()
+		if string(after) != string(before) || f.Length() != slots {
+			da, _ := parseCuckoo(after, nil)
+			db, _ := parseCuckoo(before, nil)
+			diff := 0
+			if len(da.B) == 1 && len(db.B) == 1 {
+				for i := range db.B[0].E {
+					if i < len(da.B[0].E) && da.B[0].E[i] != db.B[0].E[i] {
+						diff++
+					}
+				}
+			}
+			c.fail([]string{"C14", "C02"}, "cuckoo-rollback-inexact", fmt.Sprintf("%s: failed non-destructive Insert changed the filter (%d slots differ, Length %d)", cfg, diff, f.Length()), cfg)
+			return
+		}
+	}
+	c.branch("huge-bucket")
 }
 
 type cuckooState struct {
